@@ -832,6 +832,7 @@ fn big_ranks(rng: &mut SmallRng, count: usize) -> Vec<usize> {
 }
 
 fn big_cases(run: &mut Runner, variants: &[Variant]) {
+    let thorough = run.ctx.thorough();
     let gaps: [(usize, &str); 3] = [((1 << 32) - 1, "gap2^32-1"), (1 << 32, "gap2^32"), ((1 << 32) + 1, "gap2^32+1")];
     let mut k = 0u64;
     let pick = |name: &str| variants.iter().find(|v| v.name == name).unwrap_or_else(|| panic!("variant {}", name)).clone();
@@ -872,6 +873,10 @@ fn big_cases(run: &mut Runner, variants: &[Variant]) {
             let extra = if (k + gi as u64) % 4 == 3 { 1 } else { 0 };
             let stratum = format!("big/{}{}/tail=fresh", gname, if extra > 0 { ",2^33+bits" } else { "" });
             let l = *l;
+            if !thorough && k % 7 != 0 {
+                k += 1;
+                continue;
+            }
             run.big_case(k, &v.name, &stratum, "select", |c| {
                 let (mut m, how) = big_sparse(c.rng(), l, gap, extra);
                 if zero_only {
@@ -913,6 +918,10 @@ fn big_cases(run: &mut Runner, variants: &[Variant]) {
     ];
     for name in dense {
         let v = pick(name);
+        if !thorough && k % 4 != 0 {
+            k += 1;
+            continue;
+        }
         run.big_case(k, &v.name, "big/dense,len2^32+2^20/tail=fresh", "select", |c| {
             let len = (1usize << 32) + (1 << 20) + [0usize, 64 * 3, 29][c.rng().random_range(0..3)];
             let (bv, m) = big_dense(c.rng(), len, false);
@@ -942,7 +951,8 @@ fn main() {
     ctx.set_hang_limit(if ctx.thorough() { 900 } else { 300 });
     let small = ctx.small;
     let thorough = ctx.thorough();
-    let big = thorough && !small && ctx.build == "UBC";
+    // multi-GB vectors: release build only; quick runs a fraction of the thorough cases
+    let big = !small && ctx.build == "UBC";
     let mut run = Runner::new(ctx);
     let variants = all_variants();
     let t0 = std::time::Instant::now();
